@@ -76,3 +76,68 @@ class Flip(ArrayOpSpec):
     def replay_case(self, cfg, model):
         ax = tuple(cfg["axis"])
         return ({"x": (cfg["ndim"], None)}, f"lambda xp, a: xp.flip(a['x'], axis={ax!r})", f"lambda np, a: np.flip(a['x'], axis={ax!r})")
+
+
+@register
+class Squeeze(ArrayOpSpec):
+    """squeeze(x, axis): removes axes of extent 1 (ValueError for any other extent); every other element in place."""
+
+    target = "cubed.core.ops:squeeze"
+    quick_props = ("C01", "C17")
+
+    def configs(self, tier):
+        out = [dict(ndim=2, axis=[0], unit=[0]), dict(ndim=2, axis=[1], unit=[0])]
+        if tier != "quick":
+            out += [dict(ndim=3, axis=[0, 2], unit=[0, 2]), dict(ndim=2, axis=[1], unit=[1]), dict(ndim=3, axis=[1], unit=[1])]
+        return out
+
+    def setup(self, c):
+        nd, axis, unit = c.cfg["ndim"], tuple(c.cfg["axis"]), c.cfg["unit"]
+        x = sym_array(c, "x", nd, fixed={i: 1 for i in unit})
+        keep = [i for i in range(nd) if i not in axis]
+
+        def exp(j, g):
+            it = iter(g)
+            return (x.name, tuple(0 if i in axis else next(it) for i in range(nd)))
+
+        c.expect_origin = exp
+        c.keep = keep
+        return (x, axis if len(axis) > 1 else axis[0]), {}
+
+    def declines(self, c, a, k, e):
+        x = a[0]
+        return c.Or(*[x.shape[i] != 1 for i in c.cfg["axis"]])
+
+    def ensures(self, c, a, k, res):
+        x = a[0]
+        yield "only-unit-axes-removed", c.And(*[x.shape[i] == 1 for i in c.cfg["axis"]])
+        yield "shape", c.eq_tuple(res.shape, tuple(x.shape[i] for i in c.keep))
+
+    def replay_case(self, cfg, model):
+        ax = tuple(cfg["axis"])
+        return ({"x": (cfg["ndim"], {i: 1 for i in cfg["unit"]})}, f"lambda xp, a: xp.squeeze(a['x'], axis={ax!r})",
+                f"lambda np, a: np.squeeze(a['x'], axis={ax!r})")
+
+
+@register
+class MatrixTranspose(ArrayOpSpec):
+    """matrix_transpose(x): swaps the last two axes."""
+
+    target = "cubed.array_api.linear_algebra_functions:matrix_transpose"
+    quick_props = ("C01",)
+
+    def configs(self, tier):
+        return [dict(ndim=2)] + ([dict(ndim=3)] if tier != "quick" else [])
+
+    def setup(self, c):
+        nd = c.cfg["ndim"]
+        x = sym_array(c, "x", nd)
+        c.expect_origin = lambda j, g: (x.name, tuple(g[:-2]) + (g[-1], g[-2]))
+        return (x,), {}
+
+    def ensures(self, c, a, k, res):
+        s = a[0].shape
+        yield "shape", c.eq_tuple(res.shape, tuple(s[:-2]) + (s[-1], s[-2]))
+
+    def replay_case(self, cfg, model):
+        return ({"x": (cfg["ndim"], None)}, "lambda xp, a: xp.matrix_transpose(a['x'])", "lambda np, a: np.swapaxes(a['x'], -1, -2)")
